@@ -345,12 +345,16 @@ def cli_cases(v, seed_, n):
                 allkeys = sorted(set(gen.collect_keys(samples)))
                 first = ["-m", "Root", "in.json", "-f", fw, "--dkf"] + (allkeys[:6] or ["x"]) + ["--dkr", r".*", r"k\d+"]
                 return job, clireuse.run(first, argv, d, again=(i % 8 >= 6))
-            return job, subprocess.run([PY, "-m", "json_to_models"] + argv, capture_output=True, text=True, cwd=d, env=child_env(), timeout=300)
+            from ..common import run_bounded
+            return job, run_bounded([PY, "-m", "json_to_models"] + argv, timeout=120, capture_output=True, text=True, cwd=d, env=child_env())
 
         with ThreadPoolExecutor(max_workers=12) as ex:
             done = list(ex.map(run, jobs))
         for (i, d, argv, samples, fw, pats, dkf), r in done:
             case = {"via": "cli", "argv": argv, "models": [["Root", samples]]}
+            if getattr(r, "timed_out", False):
+                v.add(case, {"status": "inconclusive", "why": "case timeout", "witnesses": []})
+                continue
             if r.returncode != 0:
                 v.add(case, {"status": "outside", "why": "CLI failed (C16/C17 report it)", "witnesses": []})
                 continue
